@@ -18,10 +18,10 @@ def main():
     U = "all interleavings up to Mazurkiewicz equivalence (DPOR + sleep sets, virtual time)"
     P = "exit paths {no offer, rejected relay URL, undecodable offer, peer-connection error, answer: client gone, answer: transport error, data channel never opens, relay unreachable, normal end, data channel opening at the timeout instant}"
     if tier == "quick":
-        passes = [{"harness": "c16", "cfg": {"capacities": "3", "maxlen": "3"}, "budget_s": 80, "label": "capacity in {1,2,3} x all session-outcome sequences of length <=3 over 10 " + P + ": " + U}]
+        passes = [{"harness": "c16", "cfg": {"capacities": "3", "maxlen": "3"}, "budget_s": 80, "label": "capacity in {1,2,3} x all session-outcome sequences of length <=3 over 11 " + P + ": " + U}]
         total = 90
     else:
-        passes = [{"harness": "c16", "cfg": {"capacities": "3", "maxlen": "4"}, "budget_s": 850, "label": "capacity in {1,2,3} x all outcome sequences of length <=4 over 10 " + P + ": " + U}]
+        passes = [{"harness": "c16", "cfg": {"capacities": "3", "maxlen": "4"}, "budget_s": 850, "label": "capacity in {1,2,3} x all outcome sequences of length <=4 over 11 " + P + ": " + U}]
         total = 900
     passes.insert(0, {"harness": "c16-load", "cfg": {}, "budget_s": 20, "label": "capacity 16 with 7/8/9/15 slots held by served clients, 1/2/8 of which leave at 0/3/5/7/12 s, while the proxy keeps polling a broker without clients (the same pollOffer call polls every 5 s): every reported load is a multiple of 8 not above the slots in use since the previous poll: " + U})
     total += 20
